@@ -21,6 +21,8 @@ LINES = ["<", ">", "</>", "<>", "< />", "</ >", "%", "%%", "$", "%define",
          "k=v", "<a\tb\tc>", "<a b />", "<a b/ >", "%include  ", "%import  "]
 
 ODD_INCLUDES = ["http://[", "http://a b/", "#frag", "x.conf#frag", "file:",
+                "http://[::1/#x", "http://[#", "http://a b/#f", "[#", "#",
+                "http://sim.test/x#", "file:///sim/x.conf#a#b", "//[#x",
                 "file://", "file:///", "mailto:x", "ftp://x.test/y",
                 "package:foo:bar", "package:foo", "package:os:x",
                 "package:json:x", "package:zcsim_p0:component.xml",
